@@ -675,6 +675,40 @@ func (e *Env) call(x *Expr) TTerm {
 			e.g.Global(n, "Iface", true)
 			return TTerm{S: n, Sort: "Iface"}
 		}
+	case "returns":
+		// returns("pkg.f", receiver/arguments..., results...): f was called with these arguments and returned these results
+		if len(x.Args) >= 1 && x.Args[0].Op == "str" {
+			fn := e.g.funcByShortKey(x.Args[0].Name)
+			if fn == nil {
+				return e.fail("returns: unknown function %q", x.Args[0].Name)
+			}
+			rel, sorts := e.g.retRel(fn)
+			if len(a)-1 != len(sorts) {
+				return e.fail("returns(%q) takes %d arguments and results, got %d", x.Args[0].Name, len(sorts), len(a)-1)
+			}
+			var ts []string
+			for i, t := range a[1:] {
+				if t.Sort == "Nil" {
+					t = coerceNil(t, sorts[i])
+				}
+				if t.Sort != sorts[i] {
+					return e.fail("returns(%q): argument %d has sort %s, want %s", x.Args[0].Name, i+1, t.Sort, sorts[i])
+				}
+				ts = append(ts, t.S)
+			}
+			return B("(" + rel + " " + strings.Join(ts, " ") + ")")
+		}
+		return e.fail("returns(\"pkg.f\", ...)")
+	case "as":
+		// as(iface, "pkg.Struct"): the *pkg.Struct held by the interface value (meaningful under isType(iface, "*pkg.Struct"))
+		if len(x.Args) == 2 && x.Args[1].Op == "str" && a[0].Sort == "Iface" {
+			t := e.g.lookupNamed(x.Args[1].Name)
+			if t == nil {
+				return e.fail("as: unknown type %q", x.Args[1].Name)
+			}
+			return TTerm{S: "(iref " + a[0].S + ")", Sort: "Int", T: types.NewPointer(t)}
+		}
+		return e.fail("as(iface, \"pkg.Struct\")")
 	case "deref":
 		// deref(p, "pkg.Struct", "field")
 		if len(x.Args) == 3 && x.Args[1].Op == "str" && x.Args[2].Op == "str" {
